@@ -27,7 +27,8 @@ fn gens(n: usize, m: usize, o: usize, k: usize, tier: Tier) -> (TreeGen, TreeGen
     };
     let terms_nm: Vec<Aff> = match (n, m) {
         (1, 1) => vec![r1(&[1.0], 0.0), r1(&[-1.0], 1.0), r1(&[0.0], 2.0)],
-        (1, 2) => vec![Aff::new(vec![vec![1.0], vec![-1.0]], vec![0.0, 1.0]), Aff::new(vec![vec![0.0], vec![2.0]], vec![1.0, 0.0])],
+        // the last one has an offset vector whose non-zero entries cancel in the sum
+        (1, 2) => vec![Aff::new(vec![vec![1.0], vec![-1.0]], vec![0.0, 1.0]), Aff::new(vec![vec![0.0], vec![2.0]], vec![1.0, 0.0]), Aff::new(vec![vec![1.0], vec![1.0]], vec![1.0, -1.0])],
         (2, 1) => vec![r1(&[1.0, 1.0], 0.0), r1(&[0.0, -1.0], 1.0)],
         _ => vec![
             Aff::identity(2),
@@ -35,6 +36,8 @@ fn gens(n: usize, m: usize, o: usize, k: usize, tier: Tier) -> (TreeGen, TreeGen
             Aff::new(vec![vec![1.0, 1.0], vec![0.0, 0.0]], vec![0.0, -1.0]),
             // shear: unit diagonal, zero bias, non-zero off-diagonal
             Aff::new(vec![vec![1.0, 2.0], vec![0.0, 1.0]], vec![0.0, 0.0]),
+            // pure translation by an offset whose entries cancel in the sum
+            Aff::new(vec![vec![1.0, 0.0], vec![0.0, 1.0]], vec![0.5, -0.5]),
         ],
     };
     let preds_m: Vec<Aff> = match (m, k) {
@@ -130,6 +133,23 @@ fn check_compose<const K: usize>(f: &TSpec, g: &TSpec, layout: u8, apply: Option
         return out;
     }
     let sh = snap(&h);
+    if apply.is_none() && f.n_nodes() <= 3 && g.n_nodes() <= 3 {
+        // the progress-display variant must build the very same tree (run for all pairs of trees with <= 3 nodes)
+        let mut hv = ft.clone();
+        out.add("real_executions", 1);
+        match catch(|| hv.compose::<false, true>(&gt)) {
+            Err(msg) => out.violate(Violation::new(format!("compose::<false, true> panicked where compose::<false, false> did not: {msg}"), record.clone()).tag("kind", "variant")),
+            Ok(()) => {
+                let sv = snap(&hv);
+                if sv != sh {
+                    let mut rec = record.clone();
+                    rec["h_arena"] = sh.to_json();
+                    rec["h_verbose_arena"] = sv.to_json();
+                    out.violate(Violation::new(format!("compose::<false, true> and compose::<false, false> leave different trees ({} vs {} nodes)", sv.nodes.len(), sh.nodes.len()), rec).tag("kind", "variant"));
+                }
+            }
+        }
+    }
     if snap(&gt) != sg {
         out.violate(Violation::new("right operand changed", record.clone()).tag("kind", "rhs_changed"));
     }
